@@ -23,7 +23,7 @@ ASSUMPTIONS = [
     "the server sends response bytes only after it has received the request head (causal order); when the request is streamed it may answer before the body is complete",
     "all withheld hooks are resumed and both sides closed before the end-of-life check (the property speaks about the state once all connections are closed)",
 ]
-OUTSIDE = ["HTTP/2 and HTTP/3 front-ends (ordering there is covered by the C05 harness)", "CONNECT tunnels and protocol upgrades (excluded by the property)",
+OUTSIDE = ["HTTP/2 and HTTP/3 front-ends beyond the pending-connect obligation (ordering there is covered by the C05 harness)", "CONNECT tunnels and protocol upgrades (excluded by the property)",
            "more than one fault per exchange in the quick tier", "upstream/transparent/reverse modes"]
 ENCODED = [
     "mitmproxy.proxy.layers.http:HttpStream.state_wait_for_request_headers", "mitmproxy.proxy.layers.http:HttpStream.state_consume_request_body",
@@ -278,6 +278,78 @@ def h_lifecycle(X, cfg):
         X.reach("no-flow")
 
 
+def h_h2_pending_connect(X):
+    """HTTP/2 client: 1-3 requests arrive while the (shared) upstream connection attempt is still pending; the attempt then fails,
+    or succeeds and the server closes without answering.  Every flow must end with exactly one outcome and not stay live."""
+    import h2.config
+    import h2.connection
+
+    from mitmproxy.proxy.layers import http as mhttp
+
+    ctx = sansio.make_context(_opts(False))
+    ctx.client.alpn = b"h2"
+    d = sansio.Driver(mhttp.HttpLayer(ctx, mhttp.HTTPMode.regular), ctx)
+    flows = []
+
+    def on_hook(h):
+        f = h.args()[0]
+        if isinstance(f, http.HTTPFlow):
+            for rec in flows:
+                if rec[0] is f:
+                    rec[1].append(h.name)
+                    break
+            else:
+                flows.append((f, [h.name]))
+        return True
+
+    d.on_hook = on_hook
+    d.defer_open = True
+    d.start()
+    cli = h2.connection.H2Connection(h2.config.H2Configuration(client_side=True, header_encoding=False))
+    cli.initiate_connection()
+    d.data(ctx.client, cli.data_to_send())
+    cli.receive_data(bytes(d.sent_to(ctx.client)))
+    k = 1 + X.choose("streams-1", 3)
+    together = X.boolean("one_segment")
+    same_host = X.boolean("same_destination")
+    for i in range(k):
+        host = b"example.com" if same_host or i == 0 else b"other%d.example" % i
+        cli.send_headers(2 * i + 1, [(b":method", b"GET"), (b":scheme", b"http"), (b":path", b"/%d" % i), (b":authority", host)], end_stream=True)
+        if not together:
+            d.data(ctx.client, cli.data_to_send())
+    if together:
+        d.data(ctx.client, cli.data_to_send())
+    X.reach("streams-%d" % k)
+    outcome = X.choose("connect", ["refused", "connected-then-closed"])
+    n_open = len(d.pending_opens)
+    X.check(n_open >= 1, "C03/h2-pending-connect/no-connection-attempt", f"{k} requests, no OpenConnection")
+    for cmd in list(d.pending_opens):
+        d.pending_opens.remove(cmd)
+        d._finish_open(cmd, "connection refused" if outcome == "refused" else None)
+    d.defer_open = False
+    for cmd in list(d.pending_opens):  # attempts issued while the first ones were being answered
+        d.pending_opens.remove(cmd)
+        d._finish_open(cmd, "connection refused" if outcome == "refused" else None)
+    if outcome != "refused":
+        for srv in list(d.opened):
+            if srv.state != ConnectionState.CLOSED:
+                d.close(srv)
+    d.close(ctx.client)
+    for srv in list(d.opened):
+        if srv.state != ConnectionState.CLOSED:
+            d.close(srv)
+    X.reach("ran")
+    X.check(len(flows) == k, "C03/h2-pending-connect/flow-count", f"{k} requests, {len(flows)} flows fired requestheaders")
+    for f, names in flows:
+        what = f"{k} h2 streams ({'one segment' if together else 'one segment each'}, {'same' if same_host else 'different'} destination), connect {outcome}: {f.request.path} hooks {names}"
+        tag = "h2-pending-connect/" + outcome
+        X.check(names[0] == "requestheaders" and names.count("request") <= 1, f"C03/hook-order/{tag}", what)
+        X.check(not ("response" in names and "error" in names), f"C03/both-response-and-error/{tag}", what)
+        X.check(names.count("response") + names.count("error") == 1, f"C03/no-outcome/{tag}", what + f"; flow.error={f.error}")
+        X.check(f.live is False, f"C03/still-live-after-close/{tag}", what + f"; live={f.live}")
+        X.reach("outcome-error" if "error" in names else "outcome-response")
+
+
 def obligations(tier):
     q = tier == "quick"
     base = {"exchanges": ["get", "post-cl", "post-chunked", "invalid-head", "oversize-request", "oversize-chunked-request"], "responses": ["cl", "chunked", "until-close", "invalid-head"],
@@ -292,4 +364,8 @@ def obligations(tier):
              must_reach=["ran", "outcome-response", "outcome-error", "killed", "response-set", "streamed", "intercepted", "early-response", "streamed-flow-checked",
                          "fault:client-close", "fault:server-close", "fault:client-protocol-error", "fault:server-protocol-error"] + ([] if q else ["two-flows"]),
              parallel_depth=4),
+        Symx("h2-pending-connect", h_h2_pending_connect,
+             bounds="HTTP/2 client, 1-3 GET streams (one segment or one each; same or different destinations) arriving while the upstream connection attempt is pending; "
+                    "the attempt is refused, or succeeds and the server closes without answering; then everything is closed",
+             encoded=ENCODED, must_reach=["ran", "streams-3", "outcome-error"]),
     ]
